@@ -422,6 +422,7 @@ impl Engine for RibbonEngine {
         if l_need == 0 {
             l_need = cap; // keep the model usable; C15 has already been reported
         }
+        let retained0 = real!(r.value()).to_bits();
         Exec {
             cfg: cfg.clone(),
             r,
@@ -435,7 +436,7 @@ impl Engine for RibbonEngine {
             pressing: false,
             jp: false,
             jr: false,
-            retained: 0,
+            retained: retained0,
             ambiguous: false,
             presses: 0,
             short_runs_since_press: 0,
